@@ -34,6 +34,7 @@ extern jmp_buf g_exit_jmp;
 extern int g_exit_jmp_active;
 extern uint32_t naken_asm_verif_stale_count;
 extern uint32_t naken_asm_verif_stale_first;
+extern uint32_t naken_asm_verif_rewritten_count;
 extern int g_exit_status;
 
 static int g_in_callback = 0;
@@ -757,6 +758,7 @@ void sim_finish(int how, int status)
   // hook H2 of /repo: bytes of the image that the last assembly's pass 2 never wrote (counted when the output was written)
   h->counters[NCOUNTERS - 3] = naken_asm_verif_stale_count;
   h->counters[NCOUNTERS - 2] = naken_asm_verif_stale_first;
+  h->counters[NCOUNTERS - 4] = naken_asm_verif_rewritten_count;
   W.event_ceiling = 0;
   if (how == HOW_EXIT && g_in_callback == 0)
   {
